@@ -12,3 +12,14 @@ out=['(* Bridge/Bridge_Disk.v — the functions of cache/disk (lru.go, disk.go, 
 for m in re.finditer(r'^Definition (src_[A-Za-z0-9_]+) : string := (".*")\.$', src, flags=re.M):
     out.append(f'Lemma {m.group(1)}_pinned : Gen.DiskSrc.{m.group(1)} =\n  {m.group(2)}.\nProof. reflexivity. Qed.\n')
 open('/verif/coq/Bridge/Bridge_Disk.v','w').write('\n'.join(out))
+
+# the casblob functions in full (Gen/CasblobText.v)
+src=open('/verif/coq/Gen/CasblobText.v').read()
+out=['(* Bridge/Bridge_CasblobText.v — the reader/writer functions of cache/disk/casblob in full, pinned to the',
+'   statement text (comments and logging removed) Model/Casblob.v, Model/DiskCrash.v and the crash-safety',
+'   argument of C08 (chunk table finalised last) were written against.  Regenerate with',
+'   tools/mkbridge_disk.py ONLY after the models have been re-validated against the changed source. *)',
+'From BR Require Import Base.Prelude Gen.CasblobText.','Open Scope string_scope.','']
+for m in re.finditer(r'^Definition (src_[A-Za-z0-9_]+) : string := (".*")\.$', src, flags=re.M):
+    out.append(f'Lemma {m.group(1)}_pinned : Gen.CasblobText.{m.group(1)} =\n  {m.group(2)}.\nProof. reflexivity. Qed.\n')
+open('/verif/coq/Bridge/Bridge_CasblobText.v','w').write('\n'.join(out))
